@@ -181,6 +181,8 @@ inductive Op where
   | rbdone (i : Nat)
   | remove (i : Nat)
   | snap
+  | regq            -- a quorum (arbiter) replica registers: it holds no data, is never elected, and for a controller
+                    -- that has just started (its count of quorum replicas is 0) it does not change when the election happens
   | stop
   deriving DecidableEq, Repr
 
@@ -193,6 +195,7 @@ def Sys.step (s : Sys) : Op → Sys × Out
   | .rbdone i => s.stepRbDone i
   | .remove i => s.stepRemove i
   | .snap => s.stepSnap
+  | .regq => (s, .ok)
   | .stop => s.stepStop
 
 def Sys.run (s : Sys) : List Op → Sys
